@@ -11,12 +11,11 @@ Open Scope N_scope.
 Section C13.
 Variable pt_ok : bytes -> bool.
 Variable maxvec : N.
-Variables cap_txin cap_txout : N.
 Variable H : bytes -> bytes.
 Variable Htag : bytes -> bytes.
-Notation run := (run pt_ok maxvec cap_txin cap_txout H Htag).
-Notation step := (step pt_ok maxvec cap_txin cap_txout H Htag).
-Notation fresh_answers := (fresh_answers pt_ok maxvec cap_txin cap_txout H Htag).
+Notation run := (run pt_ok maxvec H Htag).
+Notation step := (step pt_ok maxvec H Htag).
+Notation fresh_answers := (fresh_answers pt_ok maxvec H Htag).
 Notation Good := (Good pt_ok maxvec H).
 Notation taproot_encode := (taproot_encode pt_ok maxvec H).
 Notation taproot_sighash := (taproot_sighash pt_ok maxvec H Htag).
@@ -26,19 +25,19 @@ Notation taproot_sighash := (taproot_sighash pt_ok maxvec H Htag).
    that operation alone on the transaction with the witness updates made so far — provided every `All` carries the same
    list `spent` (the transaction's spent outputs; any list, even of the wrong length). *)
 Theorem C13_coherent : forall spent t ops, Forall (consistent_prevouts spent) ops -> run (init t) ops = fresh_answers t ops.
-Proof. exact (run_coherent pt_ok maxvec cap_txin cap_txout H Htag). Qed.
+Proof. exact (run_coherent pt_ok maxvec H Htag). Qed.
 
 (* the invariant behind it: started from ANY state whose filled caches equal the values recomputed from the current
    transaction and `spent`, the answers are the fresh ones and the final state satisfies the invariant again *)
 Theorem C13_coherent_from_good_state : forall spent ops t s, Good t spent s -> Forall (consistent_prevouts spent) ops -> run s ops = fresh_answers t ops.
-Proof. exact (run_coherent_from pt_ok maxvec cap_txin cap_txout H Htag). Qed.
+Proof. exact (run_coherent_from pt_ok maxvec H Htag). Qed.
 Theorem C13_invariant : forall spent ops t s, Good t spent s -> Forall (consistent_prevouts spent) ops ->
-  Good (fold_left apply_wit ops t) spent (final_state pt_ok maxvec cap_txin cap_txout H Htag s ops).
-Proof. exact (invariant_preserved pt_ok maxvec cap_txin cap_txout H Htag). Qed.
+  Good (fold_left apply_wit ops t) spent (final_state pt_ok maxvec H Htag s ops).
+Proof. exact (invariant_preserved pt_ok maxvec H Htag). Qed.
 (* one step: same answer as a fresh cache, invariant re-established (also when the query fails or panics) *)
 Theorem C13_step : forall t spent s o, Good t spent s -> consistent_prevouts spent o ->
   snd (step s o) = snd (step (init t) o) /\ Good (apply_wit t o) spent (fst (step s o)).
-Proof. exact (step_good pt_ok maxvec cap_txin cap_txout H Htag). Qed.
+Proof. exact (step_good pt_ok maxvec H Htag). Qed.
 
 (* none of the cached hashes reads script_witness: witness_mut cannot invalidate a cache *)
 Theorem C13_caches_ignore_script_witness : forall t spent i w,
@@ -95,9 +94,9 @@ Example C13_good_filled_state : forall pt_ok maxvec H,
        st_taproot := Some (compute_taproot pt_ok maxvec H f11_tx [f11_spent]) |}.
 Proof. intros. unfold Good. cbn. auto. Qed.
 
-Check (C13_coherent : forall pt_ok maxvec cap_txin cap_txout H Htag spent t ops,
+Check (C13_coherent : forall pt_ok maxvec H Htag spent t ops,
   Forall (consistent_prevouts spent) ops ->
-  run pt_ok maxvec cap_txin cap_txout H Htag (init t) ops = fresh_answers pt_ok maxvec cap_txin cap_txout H Htag t ops).
+  run pt_ok maxvec H Htag (init t) ops = fresh_answers pt_ok maxvec H Htag t ops).
 Check (C13_acp_one : forall pt_ok maxvec H Htag s spent idx o annex leaf ty g,
   schnorr_acp ty = true -> F11_known ty = false -> length spent = length (tx_in (st_tx s)) -> nth_error spent idx = Some o ->
   taproot_encode pt_ok maxvec H idx (POne idx o) annex leaf ty g s = taproot_encode pt_ok maxvec H idx (PAll spent) annex leaf ty g s /\
